@@ -31,7 +31,7 @@ def run(module, cfg, cwd, workers=8, timeout=600, env=None, simulate=None, depth
         coverage=False, extra=(), heap="4g", deadlock=None, dfs_queue=False, keep_out=True):
     """module: X.tla (relative to cwd); cfg: config file (relative to cwd)."""
     meta = tempfile.mkdtemp(prefix="tlc.", dir=_workdir())
-    cmd = ["java", "-XX:+UseParallelGC", "-Xmx" + heap]
+    cmd = ["java", "-XX:+UseParallelGC", "-Xmx" + heap, "-DTLA-Library=" + os.path.join(VERIF, "specs", "common")]
     if dfs_queue:
         cmd.append("-Dtlc2.tool.queue.IStateQueue=StateDeque")
     cmd += ["-cp", JAR, "tlc2.TLC", "-metadir", meta, "-workers", str(workers), "-config", cfg]
@@ -118,7 +118,7 @@ def _parse(r):
 
 
 def sany(module, cwd, timeout=120):
-    p = subprocess.run(["timeout", str(timeout), "java", "-cp", JAR, "tla2sany.SANY", module], cwd=cwd,
+    p = subprocess.run(["timeout", str(timeout), "java", "-DTLA-Library=" + os.path.join(VERIF, "specs", "common"), "-cp", JAR, "tla2sany.SANY", module], cwd=cwd,
                        stdout=subprocess.PIPE, stderr=subprocess.STDOUT, text=True)
     ok = p.returncode == 0 and "Semantic errors" not in p.stdout and "***Parse Error***" not in p.stdout \
         and "Fatal errors" not in p.stdout and "Could not" not in p.stdout
